@@ -22,17 +22,22 @@ theorem runLoop_nocancel (px : PkgMap) (ds : List Detector) (s : St)
   induction ds generalizing s with
   | nil => simp [runLoop, specStatus, specFindings, hr]
   | cons d ds ih =>
-    have hd : d.cancels = false := hn d (by simp)
-    have hn' : NoCancel ds := fun e he => hn e (by simp [he])
-    unfold runLoop
-    simp only [hc, Bool.false_eq_true, if_false]
-    have := ih ⟨s.findings ++ tagResults d.name (d.scan px).1, s.status ++ [statusFromErr d.name (d.scan px).2],
-      s.calls ++ [(d.name, px)], false || d.cancels, false⟩ (by simp [hd]) rfl hn'
-    obtain ⟨h1, h2, h3, h5⟩ := this
-    refine ⟨?_, ?_, ?_, h5⟩
-    · rw [h1]; simp [specFindings, List.flatMap_cons, List.append_assoc, tagResults_eq]
-    · rw [h2]; simp [specStatus, statusFromErr, List.append_assoc]
-    · rw [h3]; simp [List.append_assoc]
+    cases ds with
+    | nil =>
+      -- the last detector: whatever it does to the context, nothing is left to skip
+      simp [runLoop, hc, specFindings, specStatus, statusFromErr, tagResults_eq]
+    | cons e es =>
+      have hd : d.cancels = false := hn d (by simp [List.dropLast])
+      have hn' : NoCancel (e :: es) := fun x hx => hn x (by simp only [List.dropLast_cons₂, List.mem_cons]; exact Or.inr hx)
+      rw [runLoop]
+      simp only [hc, Bool.false_eq_true, if_false]
+      have := ih ⟨s.findings ++ tagResults d.name (d.scan px).1, s.status ++ [statusFromErr d.name (d.scan px).2],
+        s.calls ++ [(d.name, px)], false || d.cancels, false⟩ (by simp [hd]) rfl hn'
+      obtain ⟨h1, h2, h3, h5⟩ := this
+      refine ⟨?_, ?_, ?_, h5⟩
+      · rw [h1]; simp [specFindings, List.flatMap_cons, List.append_assoc, tagResults_eq]
+      · rw [h2]; simp [specStatus, statusFromErr, List.append_assoc]
+      · rw [h3]; simp [List.append_assoc]
 
 theorem runLoop_calls_prefix (px : PkgMap) (ds : List Detector) (s : St) :
     ∃ k, (runLoop px ds s).calls = s.calls ++ (ds.take k).map (fun d => (d.name, px)) := by
